@@ -58,6 +58,14 @@ class ShardWriterNP(ShardWriterBase):
             values (dict[str, npt.NDArray[np.generic]]): Attribute values.
         """
         # Just buffer all values.
+        # A value which NumPy can represent only as an array of Python objects
+        # (e.g. a dict or None) would be pickled by `np.savez` and the whole
+        # shard could not be loaded again.
+        for name, value in values.items():
+            if np.asarray(value).dtype.hasobject:
+                raise ValueError(f"Attribute {name} cannot be saved as a NumPy "
+                                 f"array of a basic type, got {type(value)}.")
+
         if not self._buffer:
             self._buffer = {
                 name: [np.copy(value)] for name, value in values.items()
